@@ -22,38 +22,44 @@ CLAIMS.update({
              "LL(1)-deterministic against the decoder's real dispatch (FIRST sets), context numbers unique and ascending, registries complete and numbered as the service-choice enumerations say, "
              "the generic Sequence/Choice encode and decode agree branch by branch on head-tag class/number and open/close pairing (path-sensitive), trailing data is refused, "
              "and wire signatures / enumeration numbers have not drifted from the reviewed reference. Octet equality with Annex F and value equality after decode are runtime quantities and are not claimed."
-             " Also decided: NameValue's hand-written decoder consumes and stores a present value on every feasible path (a Date becomes a DateTime only before a Time); no arm of the wire coders' class dispatch is shadowed by an earlier arm for a base class (MRO); APCISequence encodes into / decodes from a tag list created in that very call.",
+             " Also decided: NameValue's hand-written decoder consumes and stores a present value on every feasible path (a Date becomes a DateTime only before a Time); no arm of the wire coders' class dispatch is shadowed by an earlier arm for a base class (MRO); APCISequence encodes into / decodes from a tag list created in that very call."
+             " Further: each element of a list gets a tag created in its own pass of the encoder loop.",
         technique="AST table evaluation (schema/LL(1) analysis) + path analysis of the generic interpreter + frozen wire-signature reference",
         note=_NOTE),
     "C05": dict(
         text="Structural necessary conditions of segmented transfer decided on all paths: one stride for counting and slicing, modulo-256 arithmetic on every sequence-number expression, "
              "flags/window field of each segment (finite-domain evaluation of the stored expressions), in-order guard dominating append_segment with negative ack otherwise, delivery only after the last segment, "
              "window-bounded bursts, None-typestate of the window size in retransmission handlers, and sequence-number-vs-index kinds. Payload equality under arbitrary fault patterns is not claimed."
-             " Also decided: a lost reply makes the client hand the whole saved request to indication() again (not segment 0 alone); a duplicated segment-ack is ignored while the confirmation is awaited (the same duplicate one state later is known finding KF-33).",
+             " Also decided: a lost reply makes the client hand the whole saved request to indication() again (not segment 0 alone); a duplicated segment-ack is ignored while the confirmation is awaited (the same duplicate one state later is known finding KF-33)."
+             " Further: an in-window segment-ack, positive or negative, makes the sender go on (only an ack outside the window is ignored).",
         technique="path enumeration + guard value-sets + finite-domain expression evaluation + field typestate",
         note=_NOTE),
     "C10": dict(
         text="Reply discipline decided structurally: the two request dispatchers convert every Reject/Abort/Execution/other failure they catch into exactly one reply with the request's context (abstract walk over all paths), "
              "every confirmed-service handler replies exactly once per normal path (effect summaries), handler names match registered request classes, every error literal is a member of ErrorClass/ErrorCode, "
              "and deferred calls are isolated from each other. Absence of residue after arbitrary garbage sequences is not claimed."
-             " Also decided: implicit refusals of the header code tables (a table shorter than the field's value range raises IndexError) count as refusals that ServerSSM.idle must answer.",
+             " Also decided: implicit refusals of the header code tables (a table shorter than the field's value range raises IndexError) count as refusals that ServerSSM.idle must answer."
+             " Further: the capability decision tables of the server transaction (shared with C12.R2): an answer the client cannot take is aborted, never segmented toward a client that accepts no segments.",
         technique="path enumeration with a small abstract state + effect summaries + registry/enumeration table agreement",
         note=_NOTE),
     "C11": dict(
         text="All nine transaction lookups are shown to match on invoke ID AND peer address (truth-table evaluation of the match condition), each inbound PDU type searches the right list by direction flag and is handed to the found transaction, "
-             "misses are ignored, allocation is modulo 256 over IDs not live toward that peer, registration precedes execution, and duplicate requests are not re-delivered; the per-peer request queues of the application serialise requests and are forgotten only when idle (shared with C04.R6). Wrap-around over histories is not claimed.",
+             "misses are ignored, allocation is modulo 256 over IDs not live toward that peer, registration precedes execution, and duplicate requests are not re-delivered; the per-peer request queues of the application serialise requests and are forgotten only when idle (shared with C04.R6). Wrap-around over histories is not claimed."
+             " Further: who-may-call of the IOCB controller's completion helpers (an outcome reaches an IOCB only from its own transaction).",
         technique="guard truth-table evaluation + path enumeration per PDU type",
         note=_NOTE),
     "C12": dict(
         text="Capability decision tables of ClientSSM.indication / ServerSSM.confirmation / idle / await_confirmation are enumerated over all combinations of own and peer segmentation support, max-segments and segment counts and compared with the standard's outcome (send or the matching abort); "
              "segment size is bounded by every limit it is derived from; peer limits are taken from the request header and I-Am, a record learned from an I-Am is stored under both cache keys and the state machines acquire it with a key of the kind acquire() accepts; window negotiation is min(proposed, own) and one burst asks for exactly actualWindowSize consecutive segments (evaluated from the loop, whatever its spelling). Header allowance and window range checks are known findings. Frame lengths for concrete payloads are not claimed."
-             " Also decided: every accepted I-Am refreshes the peer's limits and the cache on every path; a segmented request starts with no window (None or 1) and a timeout before the first segment-ack repeats a single segment.",
+             " Also decided: every accepted I-Am refreshes the peer's limits and the cache on every path; a segmented request starts with no window (None or 1) and a timeout before the first segment-ack repeats a single segment."
+             " Further: a retry of a request passes the capability decision again.",
         technique="finite-domain guard evaluation over path enumeration (decision-table extraction) + dataflow of limit sources",
         note=_NOTE),
     "C14": dict(
         text="Heap ownership (who-may-write), key shape with monotone tie-breaker, isScheduled pairing with push/pop/delete on every path, suspend-before-push on re-install, pop only when when<=now (value-set of the guard), "
              "re-install only for recurring tasks with positive interval, exact-arithmetic evaluation of the next-slot formula extracted per path, per-call isolation and FIFO/batching shape of the deferred queue. Floating-point results and orderings over generated histories are not claimed."
-             " Also decided: every logger used inside an except handler of core.py belongs to a function or class the debugging decorator equips (an undecorated helper would raise inside the handler).",
+             " Also decided: every logger used inside an except handler of core.py belongs to a function or class the debugging decorator equips (an undecorated helper would raise inside the handler)."
+             " Further: tasks parked before the task manager existed are handed over in installation order.",
         technique="who-may-write + path pairing rules + guard value-sets + exact rational evaluation of the extracted formula",
         note=_NOTE),
 })
@@ -64,7 +70,8 @@ CLAIMS.update({
              "width/format/byte-order agreement of encode and decode, length guards, two's-complement sign extension and big-endian accumulation (expression tables), the 10+22 object-identifier split on both sides, "
              "the BOOLEAN special case in both tag conversions, no mask reachable by an unrepresentable value (guard value-sets), injectivity of all ~90 enumerations and bit-name tables, and the shortest-form strip loops "
              "(which (len, d0, d1) combinations delete the leading octet). Equality of arbitrary values after a round trip (floats, character sets) is a runtime quantity and is not claimed."
-             " Also decided: a bit string holds only 0/1 (every element store evaluated over truthy/falsy samples; the constructor's list guard; the decoder's appends).",
+             " Also decided: a bit string holds only 0/1 (every element store evaluated over truthy/falsy samples; the constructor's list guard; the decoder's appends)."
+             " Further: a character string is sent as its stored octets under its stored character set; an enumeration class builds its own name table.",
         technique="guard value-sets + finite-domain evaluation of codec expressions + table injectivity over the AST",
         note=_NOTE),
     "C02": dict(
@@ -88,7 +95,8 @@ CLAIMS.update({
     "C09": dict(
         text="BVLCI layout and both length checks (value-sets over declared length vs payload), symbolic octet count of every function's encoder equal to the length expression it declares (constructor and re-computation), "
              "encode/decode trace agreement incl. table entries and the six-octet address width, pack/unpack_ip_addr format agreement, and the function registry against Annex J.2."
-             " Also decided: every multi-octet read of the decoders goes through PDUData.get_data (bounded, consuming, big endian; shared with C02.R2), so a truncated frame raises DecodingError.",
+             " Also decided: every multi-octet read of the decoders goes through PDUData.get_data (bounded, consuming, big endian; shared with C02.R2), so a truncated frame raises DecodingError."
+             " Further: every 16-bit port is accepted by the address/port form the decoders build addresses with.",
         technique="codec layout extraction + symbolic octet counting + trace agreement",
         note=_NOTE),
 })
@@ -109,23 +117,27 @@ CLAIMS.update({
         note=_NOTE),
     "C15": dict(
         text="Validate-before-mutate on every path of Property.WriteProperty, the writable name/identifier properties and the commandable mix-in; the refusal table (error class/code per failure) in the property classes, both service handlers and the RPM element builder; "
-             "array index value-sets (0 = length, 1..n, IndexError otherwise); sibling normal form of the ReadProperty and ReadPropertyMultiple value conversions and selector polarity; the request's identifier / index / priority reach obj.ReadProperty / obj.WriteProperty; per-specification results are built fresh in every loop pass (definite-assignment and stale-accumulator dataflow); error literals; drift of all 1650 (object type, property) datatypes and conformance codes.",
+             "array index value-sets (0 = length, 1..n, IndexError otherwise); sibling normal form of the ReadProperty and ReadPropertyMultiple value conversions and selector polarity; the request's identifier / index / priority reach obj.ReadProperty / obj.WriteProperty; per-specification results are built fresh in every loop pass (definite-assignment and stale-accumulator dataflow); error literals; drift of all 1650 (object type, property) datatypes and conformance codes."
+             " Further: a write is refused as unknown property only when reading the property yields None, not for a false value.",
         technique="path rules (validate-before-mutate) + guard value-sets + sibling normal form + frozen property reference",
         note=_NOTE),
     "C16": dict(
         text="Both subscribe handlers acknowledge exactly once and defer exactly one initial notification on every non-cancel path; one record per (address, process, object) by truth table of the match; renewal re-times and records the request-derived fields the reporters read (dataflow) and both renewal call sites pass them; "
-             "expiry/cancel cleanup; one deferred execution per change burst; inclusive increment threshold (expression table); every COV-capable object type has a criteria class whose properties it declares. Notification counts over timelines are not claimed.",
+             "expiry/cancel cleanup; one deferred execution per change burst; inclusive increment threshold (expression table); every COV-capable object type has a criteria class whose properties it declares. Notification counts over timelines are not claimed."
+             " Further: a renewal stores the confirmed flag whenever given (True or False); overriding criteria chain to the nearest definition in the MRO; the reported value is remembered on every notification path.",
         technique="path enumeration + guard truth tables + field dataflow + table agreement",
         note=_NOTE),
     "C17": dict(
         text="Slot writes are reachable only for array indexes 1..16 with the prescribed refusals for 0 and out-of-range; the winner scan visits 1..16 ascending and stops at the first non-null slot, else the relinquish default; each slot update sets exactly one of (null, value); "
-             "the winner is recomputed and written through the base class; the commanded value is validated before the slot changes; minimum on/off association and priority 6; mix-in order of all 21 commandable classes. Values after arbitrary histories are not claimed.",
+             "the winner is recomputed and written through the base class; the commanded value is validated before the slot changes; minimum on/off association and priority 6; mix-in order of all 21 commandable classes. Values after arbitrary histories are not claimed."
+             " Further: all twenty commandable classes can be constructed (default value exists for the datatype); every hold at priority 6 gets its own release time; no slot is replaced by a shared object; the WriteProperty service does not refuse a false current value.",
         technique="guard value-sets + path rules + MRO analysis",
         note=_NOTE),
     "C18": dict(
         text="Every store of a network number and every one-octet station pack in pdu.py is shown dominated by its range test (value sets of the guards, with regex-derived sources known non-negative); fields hashed vs fields compared unconditionally, and the hashed octets are an immutable bytes object owned by the address (never the caller's buffer); "
              "all typed constructors set all five fields; Address(net, addr) turns exactly a local station / local broadcast into the remote kind on that network and refuses the rest (values followed on every path of the arm); the printer is exhaustive over the six address types; mask/host/subnet/broadcast expressions are evaluated against IPv4 arithmetic for all 33 mask lengths. Print/parse round trips are not claimed."
-             " Also decided: every pattern the parser matches a text against is anchored at its end.",
+             " Also decided: every pattern the parser matches a text against is anchored at its end."
+             " Further: every 16-bit port is accepted by the tuple form; the hash fields are judged per mode (route awareness on / off).",
         technique="guard value-sets at every sink + field-set comparison + finite-domain expression evaluation",
         note=_NOTE),
     "C19": dict(
@@ -135,7 +147,8 @@ CLAIMS.update({
         note=_NOTE),
     "C20": dict(
         text="Return shapes of eval() vs how callers unpack them; every date matcher tests a pattern field for the unspecified octet before a lower-bound comparison (sibling rule); the special-octet tables of match_date / match_weeknday are extracted by evaluating the branch guards for every month, day and week-of-month value against clause 21; "
-             "evaluation order, inclusive time comparison, Null handling, winner selection, weekday index; the timer is re-armed at the computed transition on every evaluating path; match_date_range is evaluated on a start/end/date grid; every local of the evaluator and matchers is assigned before it is read within the current loop iteration (definite-assignment dataflow). The value at every instant against an independent interpreter is not claimed.",
+             "evaluation order, inclusive time comparison, Null handling, winner selection, weekday index; the timer is re-armed at the computed transition on every evaluating path; match_date_range is evaluated on a start/end/date grid; every local of the evaluator and matchers is assigned before it is read within the current loop iteration (definite-assignment dataflow). The value at every instant against an independent interpreter is not claimed."
+             " Further: Date.now / Time.now give (year-1900, month, day, weekday 1..7) and (hour, minute, second) for a sample struct_time.",
         technique="return-shape analysis + sibling guard rule + decision-table extraction by finite-domain guard evaluation + path rules",
         note=_NOTE),
 })
